@@ -221,7 +221,7 @@ func runValue(s *simrt.Sim, ops []vop, failAt int, fresh []bool) (sites int) {
 }
 
 func valueSeq(s *simrt.Sim) {
-	n := 1 + s.Choose(8)
+	n := 1 + s.Choose(simrt.Bound(8, 12))
 	ops := make([]vop, n)
 	fresh := make([]bool, n)
 	next := uint64(100)
@@ -369,7 +369,7 @@ func runStore(s *simrt.Sim, ops []sop, failAt int) int {
 }
 
 func storeSeq(s *simrt.Sim) {
-	n := 1 + s.Choose(8)
+	n := 1 + s.Choose(simrt.Bound(8, 12))
 	ops := make([]sop, n)
 	next := uint64(200)
 	for i := range ops {
@@ -421,7 +421,7 @@ func valueConc(s *simrt.Sim) {
 	}
 	tv := kvstore.NewTypedValue[uint64](st, vkey, enc64(f, "value"), dec64(f, "value"))
 	var hist []*hx.LinOp
-	nc := 2 + s.Choose(2)
+	nc := 2 + s.Choose(simrt.Bound(2, 3))
 	next := uint64(1000)
 	for c := 0; c < nc; c++ {
 		n := 1 + s.Choose(4)
